@@ -2,6 +2,7 @@ import RisorModel.Util
 import RisorModel.C01.Decode
 import RisorModel.C01.Compile
 import RisorModel.C01.VM
+import RisorModel.C01.PrattOracle
 /-! Line-protocol front end of the C01 model.
   `eval <sexp>` → `ok <value> <stdout-hex>` | `err <class> <stdout-hex>` | `oof` | `unsupported <what>` -/
 namespace Risor.C01
@@ -54,6 +55,7 @@ def handle : List String → String
             ++ ";names=" ++ ",".intercalate c.names.toList
         let sorted := (codes.map one).toArray.qsort (fun a b => a < b) |>.toList
         "ok\t" ++ "|".intercalate sorted
+  | "pratt" :: rest => handlePratt rest
   | _ => "error\tunknown-request"
 
 end Risor.C01
